@@ -306,14 +306,28 @@ fn members() -> BoxedStrategy<Vec<ValSpec>> {
                 .collect::<Vec<_>>()
         })
     });
-    let regexes = prop::collection::vec(
-        prop::sample::select(vec!["?a", "?^a", "?b$", "?a.b", "?[ab]+c", "?^ab$", "?A"]).prop_map(|s| ValSpec::Str(s.to_string())),
-        1..=4,
-    );
+    let regexes = (
+        prop::collection::vec(prop::sample::select(vec!["?a", "?^a", "?b$", "?a.b", "?[ab]+c", "?^ab$", "?A", "?B$", "?^[ab]"]), 1..=4),
+        0u8..3,
+        any::<u8>(),
+    )
+        .prop_map(|(rs, flavour, bits)| {
+            rs.iter()
+                .enumerate()
+                .map(|(i, r)| {
+                    let ci = match flavour {
+                        0 => false,
+                        1 => true,
+                        _ => (bits >> i) & 1 == 1,
+                    };
+                    ValSpec::Str(if ci { format!("i{r}") } else { r.to_string() })
+                })
+                .collect::<Vec<_>>()
+        });
     prop_oneof![
         5 => one_batch,
         3 => prop::collection::vec(gen::string_pattern().prop_map(ValSpec::Str), 1..=5),
-        2 => regexes,
+        3 => regexes,
         3 => prop::collection::vec(prop_oneof![
                 3 => gen::small_int().prop_map(ValSpec::Int),
                 1 => gen::small_float().prop_map(ValSpec::Float),
@@ -374,6 +388,81 @@ fn palette_cases(max_len: usize) -> Vec<Case> {
     out
 }
 
+/// Lists around the 64-member boundary (the solver counts hits in a bitmap below it and in a hash
+/// set from it on), all in one automaton batch, against documents holding chosen subsets.
+fn big_list_cases(tier: &str) -> Vec<Case> {
+    let lens: &[usize] = if tier == "thorough" { &[62, 63, 64, 65, 66, 80, 130] } else { &[63, 64, 65, 70] };
+    let mut out = vec![];
+    for &len in lens {
+        for flavour in 0..3u8 {
+            let needle = |i: usize| format!("n{:03}x", i);
+            let members: Vec<ValSpec> = (0..len)
+                .map(|i| {
+                    let n = needle(i);
+                    ValSpec::Str(match (flavour, i % 3) {
+                        (0, _) => format!("*{n}*"),
+                        (1, _) => format!("i*{n}*"),
+                        (_, 0) => format!("*{n}*"),
+                        (_, 1) => format!("{n}*"),
+                        _ => format!("*{n}"),
+                    })
+                })
+                .collect();
+            // documents: none, one, two, three, half, all needles; order matters for history effects
+            let subsets: Vec<Vec<usize>> = vec![
+                vec![3],
+                vec![17],
+                vec![],
+                vec![3, 17],
+                vec![1, 2, 4],
+                (0..len).step_by(2).collect(),
+                (1..len).step_by(2).collect(),
+                (0..len).collect(),
+                vec![len - 1],
+                vec![0, len - 1],
+                vec![5],
+            ];
+            let docs: Vec<crate::model::DObj> = subsets
+                .iter()
+                .map(|sub| {
+                    // prefix members need the needle first, suffix members last: put one of each
+                    let mut text = String::new();
+                    let mut firsts: Vec<usize> = sub.iter().cloned().filter(|i| flavour == 2 && i % 3 == 1).collect();
+                    let mut lasts: Vec<usize> = sub.iter().cloned().filter(|i| flavour == 2 && i % 3 == 2).collect();
+                    let first = firsts.pop();
+                    let last = lasts.pop();
+                    if let Some(f) = first {
+                        text.push_str(&needle(f));
+                    }
+                    for i in sub {
+                        if Some(*i) != first && Some(*i) != last {
+                            text.push(' ');
+                            text.push_str(&if flavour == 1 { needle(*i).to_uppercase() } else { needle(*i) });
+                            text.push(' ');
+                        }
+                    }
+                    if let Some(l) = last {
+                        text.push_str(&needle(l));
+                    }
+                    crate::model::DObj(vec![("h".to_string(), crate::model::DocVal::Str(text))])
+                })
+                .chain(std::iter::once(crate::model::DObj::default()))
+                .collect();
+            for (quant, n) in [(1u8, 0u64), (2, 1), (2, 2), (2, 3), (2, 63), (2, 64), (2, len as u64), (2, 0), (0, 0)] {
+                let q = QCase { quant, n, members: members.clone(), form: 0, recipes: vec![] };
+                for mut c in expand(&q) {
+                    if c.kind == "c08.members" {
+                        c.docs = docs.clone();
+                        c.extra["big"] = json!(true);
+                        out.push(c);
+                    }
+                }
+            }
+        }
+    }
+    out
+}
+
 pub fn run(tier: &str, seed: u64) -> i32 {
     let mut report = Report::new(ID, tier, seed);
     report.rule = "member lists of length 1..5 (strings of every relation and case flag, regexes, numbers and numeric \
@@ -393,7 +482,8 @@ pub fn run(tier: &str, seed: u64) -> i32 {
     ];
     let findings = load_findings();
     replay_findings(&mut report, &findings, &judge_strict);
-    let pal = palette_cases(if tier == "thorough" { 3 } else { 2 });
+    let mut pal = palette_cases(if tier == "thorough" { 3 } else { 2 });
+    pal.extend(big_list_cases(tier));
     let chunks: Vec<Report> = par_run(|w, n| {
         let mut sub = report.sub();
         for (i, c) in pal.iter().enumerate() {
@@ -401,7 +491,7 @@ pub fn run(tier: &str, seed: u64) -> i32 {
                 continue;
             }
             let out = judge(c);
-            sub.label("palette_case");
+            sub.label(if c.extra.get("big").is_some() { "big_list_case" } else { "palette_case" });
             sub.record(c, out);
         }
         sub
